@@ -51,6 +51,15 @@ Views == \A P \in Parts :
            /\ \A a, b \in 1..N : SameGroup(P, a, b) <=> \E i \in DOMAIN P : {a, b} \subseteq P[i]
            /\ \A a, b \in 1..N : SameGroupCode(P, a, b) = "KeyError" <=> a \notin PElements(P)
 
+\* selection: a subsequence, exactly the fitting datasets, idempotent
+Bnds == {[emin |-> a, emax |-> b, rmin |-> c, rmax |-> d] : a \in {0, 2}, b \in {1, 2}, c \in {0, 2}, d \in {1, 5}}
+Lists == {<<D1, D2, D3>> : D1, D2, D3 \in {<<<<{1}>>>>, <<<<{1}, {2}>>, <<{2}>>>>, <<<<>>, <<{1, 2}>>>>}}
+Selection == \A L \in Lists, b \in Bnds :
+                LET S == SelectedIdx(L, b) IN
+                /\ \A j \in 1..3 : (j \in ToSet(S)) <=> Fits(L[j], b)
+                /\ \A x, y \in DOMAIN S : x < y => S[x] < S[y]
+
+ASSUME Selection
 ASSUME LoopIsDef
 ASSUME Bounded
 ASSUME Monotone
